@@ -135,6 +135,8 @@ pub fn run_a(sc: &ScenarioA, keep_events: bool) -> OutcomeA {
     // only a handful of input-thread steps
     sim.stop_liveness_bound = (super::sched::FAIR_BOUND as u64) * 40;
     sim.log_enabled = keep_events;
+    // no single search of a session may run away (harness budget; exhausting it is inconclusive)
+    sim.node_cap = 50_000_000;
     seam::install(sim);
 
     let record = Rc::new(RefCell::new(SchedRecord::default()));
